@@ -62,14 +62,27 @@ Print Assumptions C18_path_injective.
    comparison on a column named `timestamp`: the bounds the regular expressions extract hold for
    EVERY satisfying row *)
 Theorem C18_bounds_sound_conj : forall w now r s e incl,
-  conj_only w = true -> forallb atom_ok (flatten w) = true -> eval_w r now w = true ->
+  conj_only w = true -> forallb atom_ok (flatten w) = true -> forallb (rel_agree now) (flatten w) = true ->
+  eval_w r now w = true ->
   start_of (flatten w) now = Some s -> end_of (flatten w) now = Some (e, incl) ->
   s <= r_time r /\ (if incl then r_time r <= e else r_time r < e).
 Proof. exact bounds_sound_conj. Qed.
 Print Assumptions C18_bounds_sound_conj.
 
-(* pruning sound: no OR, no NOT, no comparison on a column named `timestamp`, a lower and an
-   upper bound found - exclusive or inclusive, on an hour boundary or not (classify = 0); every
+(* NOW() +/- INTERVAL 'n months': the pruner (Go AddDate: overflow is normalised) and DuckDB
+   (clamp to the end of the month) agree for EVERY number of months from every day of month up to
+   the 28th; in general DuckDB's instant is never later than the pruner's. *)
+Theorem C18_month_arith_agree : forall t n,
+  (let '(_, _, d) := civil_from_days (t / DAY) in d <= 28) -> go_add_months t n = duck_add_months t n.
+Proof. exact month_agree. Qed.
+Print Assumptions C18_month_arith_agree.
+
+Theorem C18_month_arith_order : forall t n, duck_add_months t n <= go_add_months t n.
+Proof. exact duck_le_go. Qed.
+Print Assumptions C18_month_arith_order.
+
+(* pruning sound: no OR, no NOT, no comparison on a column named `timestamp`, relative intervals
+   on which the two month arithmetics agree, a lower and an upper bound found - exclusive or inclusive, on an hour boundary or not (classify = 0); every
    row stored in the partition of its timestamp; no row before 1970.  Then for EVERY layout the
    pruned query returns exactly the rows of the unpruned one. *)
 Theorem C18_pruning_sound_guarded : forall w now fs,
@@ -139,6 +152,18 @@ Theorem C18_default_end_refuted :
   query_unpruned w now0 fs = [2%N; 5%N] /\ query_pruned w now0 fs = [2%N].
 Proof. cbv zeta. split; [reflexivity|]. split; [layout_tac|]. split; [layout_tac|]. split; vm_compute; reflexivity. Qed.
 Print Assumptions C18_default_end_refuted.
+
+(* on 2024-03-31 10:20:30.5  `time >= NOW() - INTERVAL '1 month'`  means  time >= Feb 29 10:20:30.5
+   to DuckDB and starts at Mar 2 10:20:30.5 for the pruner: the row of Feb 29 11:00 is lost *)
+Definition now_eom : Z := 1711880430500000.
+Theorem C18_month_end_refuted :
+  let w := WAnd (WAtom (ARel CTime OGe false 1 RMonth)) (WAtom (ACmp CTime OLt (L (now_eom + DAY)))) in
+  let fs := [hfile 10 (1709204400 * US) 0 false; hfile 11 (1709377200 * US) 0 false] in
+  rel_time_db now_eom false 1 RMonth = 1709202030500000 /\ rel_time_go now_eom false 1 RMonth = 1709374830500000 /\
+  classify w now_eom = 6%N /\ layout_ok fs /\ rows_nonneg fs /\
+  query_unpruned w now_eom fs = [10%N; 11%N] /\ query_pruned w now_eom fs = [11%N].
+Proof. cbv zeta. split; [reflexivity|]. split; [reflexivity|]. split; [reflexivity|]. split; [layout_tac|]. split; [layout_tac|]. split; vm_compute; reflexivity. Qed.
+Print Assumptions C18_month_end_refuted.
 
 (* rows before 1970: the start is clamped up to the epoch (the clause itself is inside the class) *)
 Theorem C18_pre_epoch_refuted :
